@@ -1539,7 +1539,7 @@ func (a *A) PacketsNotMutated() {
 					}
 					break
 				}
-				if freshObject(f, root, 0) {
+				if freshObject(f, root, 0) || a.freshAtEveryCallSite(f, root, 0) {
 					fresh++
 					continue
 				}
@@ -1793,4 +1793,37 @@ func payloadLenSum(v ssa.Value) (bool, string) {
 		return false, "the accumulator does not start at 0 or never adds a payload length"
 	}
 	return true, ""
+}
+
+// freshAtEveryCallSite: v is a parameter of an unexported function that is only ever called (never used as a value), and at
+// every call site the argument is an object under construction in the caller (or, one level up, in the caller's callers):
+// a helper that fills in part of the object its caller is building.
+func (a *A) freshAtEveryCallSite(f *ssa.Function, v ssa.Value, depth int) bool {
+	par, ok := v.(*ssa.Parameter)
+	if !ok || depth > 2 || token.IsExported(f.Name()) || f.Parent() != nil {
+		return false
+	}
+	idx := -1
+	for i, p := range f.Params {
+		if p == par {
+			idx = i
+		}
+	}
+	if idx < 0 {
+		return false
+	}
+	sites, other := a.callSites(f)
+	if len(other) > 0 || len(sites) == 0 {
+		return false
+	}
+	for _, s := range sites {
+		args := s.In.Common().Args
+		if idx >= len(args) {
+			return false
+		}
+		if !freshObject(s.Fn, args[idx], 0) && !a.freshAtEveryCallSite(s.Fn, args[idx], depth+1) {
+			return false
+		}
+	}
+	return true
 }
